@@ -340,6 +340,14 @@ func init() {
 		return nil
 	})
 	R("AllocBudget", func(e *Engine, fr *frame, a []Value) Value { e.allocBudget = int64(a[0].(Term).Int()); return nil })
+	R("MapCandidates", func(e *Engine, fr *frame, a []Value) Value {
+		m := map[string]bool{}
+		for _, t := range sliceTerms(a[0]) {
+			m[fmt.Sprint(mapKey(t))] = true
+		}
+		e.pathData["mapcands"] = m
+		return nil
+	})
 	R("AssumeCollisionFree", func(e *Engine, fr *frame, a []Value) Value { e.assumeCollisionFree(); return nil })
 	R("Note", func(e *Engine, fr *frame, a []Value) Value {
 		if e.notes == nil {
